@@ -95,7 +95,7 @@ func (r *runner) one(label string, nkeys int, plans []wplan, mk func(w *world) [
 	if err != nil {
 		return fmt.Errorf("%s: %w (trace %v)", label, err, evs)
 	}
-	r.c.Emit(Input{Free: false, Writers: w.specs(), Nkeys: nkeys, Events: evs}, obs)
+	r.c.Emit(w.input(false, evs), obs)
 	r.c.Count("experiment=" + label)
 	if dev > 0 {
 		r.c.Count("hook-deviations")
@@ -258,6 +258,57 @@ func Run(c *common.Ctx) error {
 		return err
 	}
 
+	// (a5) the first-ever store of a URL (empty cache directory), by a goroutine and by a child
+	// process, small and large: a Get before every step and after the last one, a probe after
+	// every step; and the child killed after each of its 4 steps.
+	for _, child := range []bool{false, true} {
+		for _, large := range []bool{false, true} {
+			plans := []wplan{{key: 0, child: child, large: large}}
+			allPos := map[int][]int{0: {0}, 1: {0}, 2: {0}, 3: {0}, 4: {0}}
+			if err == nil {
+				err = r.one("first-store-observed-at-every-step", 1, plans, func(w *world) []Ev {
+					return trace(w, full(1), []int{0, 0, 0, 0}, allPos)
+				})
+			}
+			if !child {
+				continue
+			}
+			for j := 1; j <= 4 && err == nil; j++ {
+				script := append(append([]string{}, wsteps[:j]...), "crash")
+				order := make([]int, j+1)
+				gets := map[int][]int{}
+				for p := 0; p <= j+1; p++ {
+					gets[p] = []int{0}
+				}
+				err = r.one("first-store-killed-after-"+hookAfter[wsteps[j-1]], 1, plans, func(w *world) []Ev {
+					return trace(w, [][]string{script}, order, gets)
+				})
+			}
+		}
+	}
+	if err != nil {
+		return err
+	}
+	// (a6) overlapping Set calls of goroutines of this process on DIFFERENT URLs with bundles of
+	// different sizes (large vs small, and small bundles of different lengths)
+	nm := 12
+	if c.Thorough() {
+		nm = len(all2)
+	}
+	for i := 0; i < nm && err == nil; i++ {
+		o := all2[i]
+		if !c.Thorough() {
+			o = all2[c.Rand.Intn(len(all2))]
+		}
+		plans := []wplan{{key: i % 2, large: true}, {key: 1 - i%2}}
+		err = r.one("stepped-2w-twourls-mixed-size", 2, plans, func(w *world) []Ev {
+			return trace(w, full(2), o, map[int][]int{c.Rand.Intn(9): {0, 1}})
+		})
+	}
+	if err != nil {
+		return err
+	}
+
 	// (b1) a goroutine writer and a child-process writer on the same URL; the child is killed
 	// (SIGKILL) while parked after its j-th step, j = 1..4: all interleavings (15+35+70+126).
 	// Variant: with an entry already stored by a third Set call.
@@ -336,6 +387,7 @@ func Run(c *common.Ctx) error {
 		return err
 	}
 	c.SetExhaustive(false)
+	c.Note("URLs: every experiment takes its URLs from one of %d adversarial families (differ only in query / query order / fragment / host case / scheme case / path case / trailing slash / dot segments / userinfo / percent-encoding / port / LDAP attributes / no host ...) plus one more URL of the family that is never stored and must always miss; probes read through a second FileCache instance over the same directory.", len(urlFamilies))
 	c.Note("stepped: all 70 interleavings of 2 Set calls (4 file-system steps each) on one URL x a Get at each of 9 positions and at each of 45 position pairs (exhaustive), 70 interleavings on two URLs, existing entry + 70, %d interleavings of 3 Set calls (of 34650; thorough = all), %d with ~1 MiB bundles; a probe (directory listing + Get of every URL) follows every step.", n3, nl)
 	c.Note("crash: child-process writer SIGKILLed after each of its 4 steps under all 246 interleavings with a goroutine writer, sampled variants with an existing entry / second URL / large bundle / two children; self-kill at each hook; parent kill during the write of a large bundle (trace reconstructed post mortem from the temp file size).")
 	c.Note("free-running goroutines and processes: supporting evidence only (the model cannot predict which allowed result a free Get sees; 'agree' there means every result is one the model allows).")
@@ -383,7 +435,7 @@ func (r *runner) selfKills() error {
 					return err
 				}
 				obs.Probes = append(obs.Probes, d)
-				r.c.Emit(Input{Writers: w.specs(), Nkeys: 1, Events: evs}, obs)
+				r.c.Emit(w.input(false, evs), obs)
 				r.c.Count("experiment=selfkill-at-" + hookAfter[wsteps[j-1]])
 				w.cleanup()
 			}
@@ -478,7 +530,7 @@ func (r *runner) midWrite() error {
 			return err
 		}
 		obs.Probes = append(obs.Probes, d)
-		r.c.Emit(Input{Writers: w.specs(), Nkeys: 1, Events: evs}, obs)
+		r.c.Emit(w.input(false, evs), obs)
 		r.c.Count("experiment=kill-during-write")
 		w.cleanup()
 	}
@@ -513,7 +565,7 @@ func (r *runner) freeRun(withLarge bool) error {
 		record(k, w.get(k), false) // before any writer: a miss
 	}
 	// one Set per URL returns before anything else starts: from here on a miss is a violation
-	for k := range w.urls {
+	for k := 0; k < 2; k++ { // plans[0] writes URL 0, plans[1] URL 1; URL 2 is never stored
 		if err := w.cache.Set(context.Background(), w.urls[plans[k].key], &corecrl.Bundle{BaseCRL: w.bundles[k].rl}); err != nil {
 			return err
 		}
@@ -591,6 +643,7 @@ func (r *runner) freeRun(withLarge bool) error {
 	}
 	var gets int64
 	for rd := 0; rd < 4; rd++ {
+		rd := rd
 		wg.Add(1)
 		go func() {
 			defer wg.Done()
@@ -605,7 +658,12 @@ func (r *runner) freeRun(withLarge bool) error {
 				default:
 				}
 				for k := range w.urls {
-					record(k, w.get(k), true)
+					// readers alternate between the two FileCache instances over the directory
+					if rd%2 == 0 {
+						record(k, w.get(k), k < 2)
+					} else {
+						record(k, w.classify(w.reader.Get(context.Background(), w.urls[k])), k < 2)
+					}
 					n++
 				}
 			}
@@ -619,7 +677,7 @@ func (r *runner) freeRun(withLarge bool) error {
 	}
 	// quiescent: every URL once more, and the leftovers of the killed child are not entries
 	for k := range w.urls {
-		record(k, w.get(k), true)
+		record(k, w.get(k), k < 2)
 	}
 	d, err := w.probe()
 	if err != nil {
@@ -641,7 +699,7 @@ func (r *runner) freeRun(withLarge bool) error {
 		}
 		return list[a].Writer < list[b].Writer
 	})
-	r.c.Emit(Input{Free: true, Writers: w.specs(), Nkeys: 2, Events: []Ev{}}, Obs{Gets: []ReadObs{}, Probes: []DirObs{}, Seen: list})
+	r.c.Emit(w.input(true, []Ev{}), Obs{Gets: []ReadObs{}, Probes: []DirObs{}, Seen: list})
 	r.c.Count("experiment=free-running")
 	r.c.Note("free run (large=%v, %v): %d Set calls by 3 goroutines + 3 processes, %d Gets by 4 readers, %d SIGKILLs of a 4th writer process, %d distinct results, %d leftover temp files, %d foreign files.",
 		withLarge, dur, sets, gets, kills, len(list), d.Temps, d.Others)
